@@ -86,17 +86,23 @@ type c05Repeat struct {
 }
 
 func judgeC05Repeat(c *Ctx, sc *Scenario, k int) *Violation {
+	_, v := c05RepeatFirst(c, sc, k)
+	return v
+}
+
+// c05RepeatFirst also says which run was the first to differ (for calibrating the repeat count of the replay).
+func c05RepeatFirst(c *Ctx, sc *Scenario, k int) (int, *Violation) {
 	one := sc.Clone()
 	one.Extra = nil
 	r0 := c.sim(c.B.FcVerif, one)
 	for i := 1; i < k; i++ {
 		r := c.sim(c.B.FcVerif, one)
 		if v := c05Compare(r0, r); v != nil {
-			return &Violation{Class: "uncontrolled", Signature: "uncontrolled-nondeterminism:" + v.Class,
+			return i, &Violation{Class: "uncontrolled", Signature: "uncontrolled-nondeterminism:" + v.Class,
 				Detail: fmt.Sprintf("run %d of the very same scenario under the very same enumeration schedule differs from run 0 (variation that does not come through pkg/dict): %s", i, v.Detail)}
 		}
 	}
-	return nil
+	return 0, nil
 }
 
 // realDiff compares two real-directory runs (exit class, files changed and their bytes).
@@ -271,7 +277,7 @@ func checkC05(tier string) {
 	quick := tier == "quick"
 	selfM, sampleM, snipM, genN, genM, realR := 24, 16, 10, 2000, 8, 3
 	if !quick {
-		selfM, sampleM, snipM, genN, genM, realR = 300, 150, 60, 40000, 16, 12
+		selfM, sampleM, snipM, genN, genM, realR = 300, 150, 60, 25000, 16, 12
 	}
 	plan = append(plan, planned{corpusSelfBuild(c.B.Repo), selfM, 2})
 	plan = append(plan, planned{corpusTool(c.B.Repo), sampleM, realR})
@@ -481,6 +487,25 @@ func checkC05(tier string) {
 		if nv := judgeC05(c, small); nv != nil && nv.Class == v.Class {
 			sc, v = small, nv
 		}
+		// a rare variation needs more repeats to replay reliably: the replay runs a dozen times as many repeats as
+		// the variation took to show (worst of two measurements), between 48 and 1200
+		worst := 0
+		for m := 0; m < 2; m++ {
+			if i, fv := c05RepeatFirst(c, sc, 300); fv != nil && i > worst {
+				worst = i
+			} else if fv == nil {
+				worst = 100
+			}
+		}
+		n := 12 * (worst + 1)
+		if n < 48 {
+			n = 48
+		}
+		if n > 1200 {
+			n = 1200
+		}
+		rp2, _ := json.Marshal(c05Repeat{Repeat: n})
+		sc.Extra = rp2
 		if !seenSig[v.Signature] {
 			seenSig[v.Signature] = true
 			if c.report(sc, v, judgeC05, nil) {
